@@ -112,12 +112,36 @@ func VerifC03EntropySize(n int) {
 //verif:big bv 640
 //verif:timeout 300
 func VerifC03Decode(nw int) {
+	verifDecodeBody(nw, 0)
+}
+
+// VerifC03DecodeLong: sentences of 36..48 words (checksums of 12..16 bits, which reach into the
+// second-to-last word) with the last `free` words arbitrary and the others fixed: the same obligations
+// as VerifC03Decode. Native replays add a wrong-checksum bank: the sentence is first made valid with the
+// real SHA-256, then every single checksum bit is flipped and must be refused with ErrInvalidChecksum.
+//
+//verif:run quick nw=36,48 free=2
+//verif:run thorough nw=39,42,45 free=3
+//verif:big bv 640
+//verif:timeout 300
+func VerifC03DecodeLong(nw, free int) {
+	verifDecodeBody(nw, nw-free)
+}
+
+func verifDecodeBody(nw, fixed int) {
 	wordList = verifList{}
 	m := make(Mnemonic, nw)
 	known := true
 	for j := range m {
+		if j < fixed {
+			m[j] = verifList{}.Word((j*37 + 11) % 2048)
+			continue
+		}
 		m[j] = verifString("word", 2)
 		verifAssume(m[j][0] < 0x80 && m[j][1] < 0x80)
+	}
+	if !verifSymbolic() && nw%3 == 0 && nw >= 12 && nw <= 48 {
+		verifWrongChecksumBank(m)
 	}
 	if verifVariant() == 1 && nw%3 == 0 && nw >= 12 && nw <= 48 {
 		verifRepairChecksum(m) // native replay, second attempt: make the sentence valid for the real SHA-256
@@ -175,6 +199,87 @@ func VerifC03Decode(nw int) {
 		for j := range re {
 			verifAssert("reencode.word", re[j] == m[j])
 		}
+	}
+}
+
+// verifWrongChecksumBank (replays only): every single-bit corruption of the real checksum is refused.
+func verifWrongChecksumBank(m0 Mnemonic) {
+	m := append(Mnemonic{}, m0...)
+	for j := range m {
+		if verifWordValue(m[j]) >= 2048 {
+			return
+		}
+	}
+	verifRepairChecksum(m)
+	_, err := MnemonicToEntropy(m)
+	verifAssert("bank.valid.accepted", err == nil)
+	nw := len(m)
+	ent := nw * 11 * 32 / 33 / 8
+	for k := 0; k < ent/4; k++ {
+		pos := 8*ent + k
+		w := append(Mnemonic{}, m...)
+		w[pos/11] = verifList{}.Word(verifWordValue(w[pos/11]) ^ 1<<uint(10-pos%11))
+		_, err := MnemonicToEntropy(w)
+		verifAssert("bank.wrong.checksum.rejected", errors.Is(err, ErrInvalidChecksum))
+	}
+}
+
+// verifListU: verifList with word 5 replaced by a word that is not ASCII, in its NFKD form.
+type verifListU struct{ verifList }
+
+const verifUWord = "e\u0301x" // NFKD form; the composed spelling "\u00e9x" is a different string
+
+func (l verifListU) Contains(w string) bool {
+	if w == verifUWord {
+		return true
+	}
+	return l.verifList.Contains(w) && verifWordValue(w) != 5
+}
+func (l verifListU) Word(i int) string {
+	if i == 5 {
+		return verifUWord
+	}
+	return l.verifList.Word(i)
+}
+func (l verifListU) Index(w string) int {
+	if w == verifUWord {
+		return 5
+	}
+	if !l.Contains(w) {
+		panic("unknown word")
+	}
+	return verifWordValue(w)
+}
+
+// VerifC03DecodeUnicode: a sentence given as a Mnemonic value is checked word by word against the list AS
+// GIVEN: a word that is not a list entry — here the composed spelling of a list word whose entry is in
+// NFKD form, or a list word with a combining mark appended — makes MnemonicToEntropy return
+// ErrInvalidMnemonic (never a panic, never acceptance); the list word itself is accepted like any other.
+//
+//verif:run quick pos=0,11 k=0..2
+//verif:big bv 640
+//verif:timeout 300
+func VerifC03DecodeUnicode(pos, k int) {
+	wordList = verifListU{}
+	defer func() { wordList = verifList{} }()
+	const nw = 12
+	m := make(Mnemonic, nw)
+	for j := range m {
+		m[j] = verifString("word", 2)
+		verifAssume(m[j][0] < 0x80 && m[j][1] < 0x80)
+		verifAssume(verifWordValue(m[j]) < 2048 && verifWordValue(m[j]) != 5)
+	}
+	m[pos] = []string{"\u00e9x", "AB\u0301", verifUWord}[k]
+	var err error
+	panicked := verifPanics(func() { _, err = MnemonicToEntropy(m) })
+	verifAssert("unicode.nopanic", !panicked)
+	if panicked {
+		return
+	}
+	if k < 2 {
+		verifAssert("unicode.not.listed.rejected", errors.Is(err, ErrInvalidMnemonic))
+	} else {
+		verifAssert("unicode.listed.word.known", !errors.Is(err, ErrInvalidMnemonic))
 	}
 }
 
